@@ -120,8 +120,13 @@ def environment(rnd):
             Assign(V('n'), Bin('+', P('n'), I(1))),
             Ret(Bin('+', Bin('*', V('n'), I(10)), P('n')))]}},
     }
+    # the derived attribute reads the same attribute of ANOTHER instance (its successor): only self.Calc is the value under
+    # computation
     derived = {'A': {'Calc': {'ty': 'integer', 'body': [
         Assign(V('x'), Bin('+', Field(SELF, 'N'), I(k1))),
+        {'t': 'select_related', 'card': 'one', 'v': 'nxt', 'h': SELF, 'chain': [{'k': 'A', 'rel': 'R2', 'ph': "'precedes'"}],
+         'haswhere': False, 'w': B(True)},
+        If(Un('not_empty', V('nxt')), [Assign(V('x'), Bin('+', V('x'), Bin('*', Field(V('nxt'), 'Calc'), I(2))))]),
         Assign(Field(SELF, 'Calc'), Bin('+', V('x'), fcall('clobber', v=I(1))))]}}}
     items = ['RED', 'GREEN', 'BLUE', 'BLACK', 'WHITE']
     rnd.shuffle(items)
@@ -269,6 +274,13 @@ def scripts(rnd, env):
                 Assign(V('c'), V('ZERO')),
                 While(Bin('and', Un('not', V('DISABLED')), Bin('<', V('c'), I(2))), [Assign(V('c'), Bin('+', V('c'), I(1)))]),
                 Ret(Bin('+', Bin('*', V('r'), I(10)), Bin('+', V('c'), fcall('mix', a=V('ZERO'), b=V('LIMIT'), s=V('NOTHING'), f=V('DISABLED')))))])
+    ph = rnd.choice(["'precedes'", "'succeeds'"])     # one direction for the whole chain
+    rel = lambda a, b: {'t': 'relate', 'a': a, 'b': b, 'rel': 'R2', 'ph': ph, 'using': ''}
+    out.append([Create('c1', 'A'), Assign(Field(V('c1'), 'N'), I(rnd.randint(0, 5))), Create('c2', 'A'), Assign(Field(V('c2'), 'N'), I(rnd.randint(0, 5))),
+                Create('c3', 'A'), Assign(Field(V('c3'), 'N'), I(rnd.randint(0, 5))), rel('c1', 'c2'), rel('c2', 'c3'),
+                Assign(V('d1'), Field(V('c1'), 'Calc')), Assign(V('d3'), Field(V('c3'), 'Calc')),
+                SelectFrom('many', 'big', 'A', Bin('>', Field({'t': 'selected'}, 'Calc'), V('d3'))),
+                Ret(Bin('+', Bin('+', Bin('*', V('d1'), I(100)), V('d3')), Bin('*', Un('cardinality', V('big')), I(10000))))])
     out.append([Assign(V('p'), Bin('and', V('DISABLED'), fcall('touch', n=I(rnd.randint(0, 5))))),
                 Assign(V('q'), Bin('or', V('ENABLED'), fcall('touch', n=I(rnd.randint(0, 5))))),
                 If(Bin('or', Bin('and', V('p'), fcall('touch', n=I(7))), Un('not', V('q'))), [Call(fcall('maybe', n=I(0)))]),
